@@ -326,7 +326,9 @@ fn read_case(r: &mut Rng, bucket: &str, bytes: Vec<u8>) -> Case {
     let inm = c_str(dicom_object::IMPLEMENTATION_VERSION_NAME);
     let _ = r;
     let mut cur = std::io::Cursor::new(&bytes[..]);
+    let t0 = std::time::Instant::now();
     let res = catch(|| FileMetaTable::from_reader(&mut cur));
+    let slow = t0.elapsed().as_secs() >= 20;
     let cr = match res {
         None => c_panic(),
         Some(Err(e)) => c_err(meta_err_class(&e)),
@@ -336,7 +338,8 @@ fn read_case(r: &mut Rng, bucket: &str, bytes: Vec<u8>) -> Case {
         coq: format!("(CRead {} {} {} {})", iu, inm, c_bytes(&bytes), cr),
         desc: json!({"bucket": bucket, "bytes": hex(&bytes), "result": cr.chars().take(40).collect::<String>()}),
         key: format!("R{}", hex(&bytes)),
-        oracle: Oracle::NotApplicable,
+        // reading a few hundred bytes takes milliseconds, unless memory for a (corrupted) declared length is allocated and filled first
+        oracle: if slow { Oracle::Fails { class: "MetaReadAllocatesDeclaredLength".into(), detail: format!("{} bytes took {:?}", bytes.len(), t0.elapsed()) } } else { Oracle::NotApplicable },
     }
 }
 
@@ -354,9 +357,78 @@ fn mutate(r: &mut Rng, mut b: Vec<u8>) -> Vec<u8> {
             b.extend_from_slice(&extra); b }
         4 => { // a length field set to a large / undefined value
             if b.len() > 40 { let i = 16 + 8 + r.below(8) as usize; b[i] = 0xff; b[i + 1] = 0xff; } b }
-        5 => { if b.len() > 30 { let i = r.range(4, b.len() as u64 - 1) as usize; b[i] = *r.pick(&[0u8, 0xff, 0xfe, b'O', b'B', b'U', b'N']); } b }
+        5 => { if b.len() > 30 { let i = r.range(4, b.len() as u64 - 1) as usize; b[i] = *r.pick(&[0u8, 0xff, 0xfe, b'A', b'E', b'0']); } b }
         6 => { b.extend_from_slice(&[0xfe, 0xff, 0x0d, 0xe0, 0, 0, 0, 0]); b }
         _ => b,
+    }
+}
+
+/// Structure-aware malformations of a valid group ("DICM" + group), run under catch_unwind:
+/// group length smaller / larger than the real group, element lengths beyond the group or the input,
+/// odd lengths, unknown VR codes, long-form VRs on string tags, undefined lengths, delimiters.
+fn elements_of(b: &[u8]) -> Vec<(usize, usize, usize)> {
+    // (offset of the element, offset of its length field, size of the length field) for the explicit VR LE group after "DICM"
+    let mut v = vec![];
+    let mut i = 4;
+    while i + 8 <= b.len() {
+        let vr = [b[i + 4], b[i + 5]];
+        let short = matches!(&vr, b"AE" | b"AS" | b"AT" | b"CS" | b"DA" | b"DS" | b"DT" | b"FL" | b"FD" | b"IS" | b"LO" | b"LT" | b"PN" | b"SH" | b"SL" | b"SS" | b"ST" | b"TM" | b"UI" | b"UL" | b"US");
+        let (lo, ls, len) = if short { (i + 6, 2, u16::from_le_bytes([b[i + 6], b[i + 7]]) as usize) }
+            else { if i + 12 > b.len() { break; } (i + 8, 4, u32::from_le_bytes([b[i + 8], b[i + 9], b[i + 10], b[i + 11]]) as usize) };
+        v.push((i, lo, ls));
+        i = lo + ls + len;
+    }
+    v
+}
+fn set_len(b: &mut [u8], lo: usize, ls: usize, len: u32) {
+    if ls == 2 { b[lo..lo + 2].copy_from_slice(&(len as u16).to_le_bytes()); } else { b[lo..lo + 4].copy_from_slice(&len.to_le_bytes()); }
+}
+fn get_len(b: &[u8], lo: usize, ls: usize) -> u32 {
+    if ls == 2 { u16::from_le_bytes([b[lo], b[lo + 1]]) as u32 } else { u32::from_le_bytes([b[lo], b[lo + 1], b[lo + 2], b[lo + 3]]) }
+}
+fn malform(r: &mut Rng, mut b: Vec<u8>) -> (Vec<u8>, &'static str) {
+    let els = elements_of(&b);
+    if els.len() < 2 { return (b, "malformed-none"); }
+    let glen = u32::from_le_bytes([b[12], b[13], b[14], b[15]]);
+    let k = 1 + r.below(els.len() as u64 - 1) as usize; // not the group length element itself
+    let (eo, lo, ls) = els[k];
+    match r.below(12) {
+        0 => { // group length smaller: ends inside or between elements
+            let cut = *r.pick(&[0u32, 1, 7, 8, 9, 13, 14, 15, 22]).min(&glen);
+            let g = if r.coin() { cut } else { glen.saturating_sub(cut.max(1)) };
+            b[12..16].copy_from_slice(&g.to_le_bytes()); (b, "malformed-glen-smaller") }
+        1 => { // group length larger than the real group (reads into what follows / end of input)
+            let g = glen.saturating_add(*r.pick(&[1u32, 2, 7, 8, 9, 12, 100, 65536, 0x7fff_ffff, 0xffff_fff0]));
+            b[12..16].copy_from_slice(&g.to_le_bytes());
+            if r.coin() { b.extend_from_slice(&[8, 0, 5, 0, b'C', b'S', 2, 0, b'A', b' ']); }
+            (b, "malformed-glen-larger") }
+        2 => { b[12..16].copy_from_slice(&r.pick(&[0u32, 0xffff_ffff, 0xffff_fffe, 0x8000_0000]).to_le_bytes()); (b, "malformed-glen-extreme") }
+        3 => { // element length beyond the group / the input (bounded: no huge allocations)
+            let l = get_len(&b, lo, ls);
+            let add = if ls == 2 { *r.pick(&[2u32, 100, 60000]) } else { *r.pick(&[2u32, 100, 70000, 1 << 24]) };
+            set_len(&mut b, lo, ls, l.saturating_add(add)); (b, "malformed-len-beyond") }
+        4 => { let l = get_len(&b, lo, ls); set_len(&mut b, lo, ls, if r.coin() { l + 1 } else { l.saturating_sub(1) }); (b, "malformed-odd-length") }
+        5 => { // odd length with the group length kept consistent: drop / add one value byte
+            let l = get_len(&b, lo, ls);
+            if l > 0 && r.coin() { set_len(&mut b, lo, ls, l - 1); b.remove(lo + ls); b[12..16].copy_from_slice(&(glen - 1).to_le_bytes()); }
+            else { set_len(&mut b, lo, ls, l + 1); b.insert(lo + ls, b'x'); b[12..16].copy_from_slice(&(glen + 1).to_le_bytes()); }
+            (b, "malformed-odd-consistent") }
+        6 => { let vr = *r.pick(&[*b"ZZ", [0, 0], *b"ui", *b"UN", *b"OB", *b"SQ", *b"UT", *b"OW", [0xff, 0xff], *b"UL", *b"US"]); b[eo + 4] = vr[0]; b[eo + 5] = vr[1];
+            (b, "malformed-vr") }
+        7 => { if ls == 4 { set_len(&mut b, lo, ls, 0xffff_ffff); } else { set_len(&mut b, lo, ls, 0xffff); } (b, "malformed-undefined-length") }
+        8 => { // an element of another group / an item delimiter in place of the tag
+            let t: [u8; 4] = *r.pick(&[[0xfe, 0xff, 0x0d, 0xe0], [0xfe, 0xff, 0x00, 0xe0], [0xfe, 0xff, 0xdd, 0xe0], [8, 0, 5, 0], [2, 0, 0xff, 0xff], [0, 0, 0, 0]]);
+            b[eo..eo + 4].copy_from_slice(&t); (b, "malformed-tag") }
+        9 => { // duplicate an element (last one wins), group length adjusted or not
+            let end = if k + 1 < els.len() { els[k + 1].0 } else { b.len() };
+            let el: Vec<u8> = b[eo..end].to_vec();
+            let at = end; for (j, x) in el.iter().enumerate() { b.insert(at + j, *x); }
+            if r.coin() { b[12..16].copy_from_slice(&(glen + el.len() as u32).to_le_bytes()); }
+            (b, "malformed-duplicate") }
+        10 => { // group length element itself: wrong VR / wrong length
+            if r.coin() { b[8] = b'O'; b[9] = b'B'; } else { b[10] = *r.pick(&[0u8, 2, 3, 5, 8]); }
+            (b, "malformed-glen-element") }
+        _ => { let n = r.below(b.len() as u64 + 1) as usize; b.truncate(n); (b, "malformed-truncated") }
     }
 }
 
@@ -518,6 +590,28 @@ pub fn cases(ctx: &Ctx) -> Vec<Case> {
         let mut b = base.clone(); b.s4[0] = Some("1.2.é".into());
         out.push(table_case(&mut r, 0, b, 1, 2, "corpus-latin1"));
     }
+    {
+        // truncated at every offset: a minimal group and one with every optional element
+        let minimal = FileMetaTableBuilder::new().transfer_syntax("1.2.840.10008.1.2").build().unwrap();
+        let full = FileMetaTableBuilder::new().transfer_syntax("1.2.3").media_storage_sop_class_uid("1.2").media_storage_sop_instance_uid("1")
+            .implementation_class_uid("1.9").implementation_version_name("V").source_application_entity_title("A").sending_application_entity_title("B")
+            .receiving_application_entity_title("C").private_information_creator_uid("1.8").private_information(vec![1u8, 2, 3]).build().unwrap();
+        for t in [&minimal, &full] {
+            let mut bytes = b"DICM".to_vec();
+            t.write(&mut bytes).unwrap();
+            let step = if ctx.tier == Tier::Thorough || bytes.len() < 120 { 1 } else { 3 };
+            let mut n = 0;
+            while n <= bytes.len() { out.push(read_case(&mut r, "malformed-truncated-every-offset", bytes[..n].to_vec())); n += step; }
+        }
+    }
+    {
+        // a corrupted header declaring ~3.7 GiB in a source of 60 bytes (fixed 083d532: used to allocate and zero-fill it first)
+        let mut bytes = b"DICM".to_vec();
+        bytes.extend_from_slice(&[2, 0, 0, 0, b'U', b'L', 4, 0, 40, 0, 0, 0]);
+        bytes.extend_from_slice(&[2, 0, 0x10, 0, b'z', b'z', 0, 0, 0, 0, 0, 0xe0]);
+        bytes.extend_from_slice(b"1.2.840.10008.1.2.1\0");
+        out.push(read_case(&mut r, "corpus-huge-declared-length", bytes));
+    }
     out.push(inferred_case(&mut r, 0));
     out.push(inferred_case(&mut r, 1));
     // preamble corpus: known findings and boundaries
@@ -540,9 +634,18 @@ pub fn cases(ctx: &Ctx) -> Vec<Case> {
     while out.len() < n {
         let i = out.len();
         match i % 10 {
-            0..=4 => { let inp = gen_input(&mut r, 0); let k = r.range(0, 12) as usize; out.push(table_case(&mut r, i, inp, 0, k, "table-ascii")); }
-            5 => { let inp = gen_input(&mut r, 1); let k = r.range(0, 8) as usize; out.push(table_case(&mut r, i, inp, 1, k, "table-nonascii")); }
-            6 | 7 => {
+            0..=3 => { let inp = gen_input(&mut r, 0); let k = r.range(0, 12) as usize; out.push(table_case(&mut r, i, inp, 0, k, "table-ascii")); }
+            4 | 5 => { let inp = gen_input(&mut r, (i % 2) as u32); let k = r.range(0, 8) as usize; out.push(table_case(&mut r, i, inp, 1, k, "table-nonascii")); }
+            7 => {
+                // valid group, structure-aware malformation
+                let inp = gen_input(&mut r, 0);
+                let mut bytes = b"DICM".to_vec();
+                if let Ok(t) = run_builder(&inp) { let mut w = vec![]; if t.write(&mut w).is_ok() { bytes.extend_from_slice(&w); } }
+                let (mut bytes, mut bucket) = malform(&mut r, bytes);
+                if r.chance(1, 4) { let (b2, _) = malform(&mut r, bytes); bytes = b2; bucket = "malformed-twice"; }
+                out.push(read_case(&mut r, bucket, bytes));
+            }
+            6 => {
                 // valid group, mutated
                 let kd = if r.chance(1, 6) { 1 } else { 0 }; let inp = gen_input(&mut r, kd);
                 let mut bytes = b"DICM".to_vec();
